@@ -9,7 +9,7 @@ EXPLANATION = ("Census of every container growth / sized allocation on the strea
                "bounded by a named constant (interval analysis: constants, min(), take() limits), or (b) it is listed in tables/growth.json with its class "
                "-- per file, per non-contiguous run, per 4 MiB block (4 bytes), bounded buffer with the invariant that bounds it. Any other site "
                "(e.g. buffering a whole file, keeping a list of blocks) is a violation. The number of bytes actually in use, and the allocator behaviour of "
-               "brotli, are runtime facts and not decided. (R15.2) in append_file_content a run is recorded (mark_continuous_block) only on paths that also write a content block.")
+               "brotli, are runtime facts and not decided. (R15.2) in append_file_content a run is recorded (mark_continuous_block) only on paths that also write a content block; (R15.3) = R09.5: current_id names the file of the block written last, so a run is opened only for a non-contiguous block.")
 TRUSTED = ['rustc MIR', 'brotli / sha2 / RustCrypto internal buffers are of constant size']
 ASSUMPTIONS = ['memory proportional to the number of files and of non-contiguous runs is allowed by the property statement']
 
